@@ -2,10 +2,11 @@ import Driver.Proto
 import Driver.Tools
 import Driver.GraphCmd
 import Driver.SamplerCmd
+import Driver.MirpCmd
 /-! `vrpdriver`: reads request lines from stdin, writes one reply line each -/
 open Vrp Vrp.Proto Vrp.Drv
 
-def allCmds : List (String × P String) := toolCmds ++ graphCmds ++ samplerCmds
+def allCmds : List (String × P String) := toolCmds ++ graphCmds ++ samplerCmds ++ mirpCmds
 
 def handle (line : String) : String :=
   let toks := (line.splitOn " ").filter (· ≠ "")
